@@ -21,7 +21,7 @@ REQUIRED_EVENTS = ["cells_judged", "history_steps_judged", "many_undefined_cases
 SHARDS = {"quick": 8, "thorough": 16}
 
 POSITIONS = ["item", "operand", "deref_value", "key_times", "key_operands", "body_item", "body_operand", "or_item",
-             "arg_sibling", "arg_nested", "arg_partial_sibling", "arg_partial_nested", "twice_in_operand", "twice_in_item", "call_key_last"]
+             "arg_sibling", "arg_nested", "arg_partial_sibling", "arg_partial_nested", "twice_in_operand", "twice_in_item", "call_key_last", "inside_operand", "inside_deref_value"]
 DEFINED = ["defined", "undefined", "no_at_name"]
 ORDER = ["user_first", "user_last"]
 WHERE = ["file", "extra"]
@@ -40,7 +40,7 @@ def build(rng, pos, defined, order, where, nother):
         # the definition AND its uses carry a name that does not START with '@': only the name check can object
         ref = rng.choice([ref[1:] + "_m", ref[1:] + "_m", " " + ref, "\t" + ref, "\u00a0" + ref, "x" + ref, "_" + ref])
     target = {"name": ref, "pattern": body_str}
-    if rng.random() < 0.3 and pos not in ("key_times", "key_operands", "deref_value", "twice_in_operand", "twice_in_item"):
+    if rng.random() < 0.3 and pos not in ("key_times", "key_operands", "deref_value", "twice_in_operand", "twice_in_item", "inside_operand", "inside_deref_value"):
         target["pattern"] = [body_str]
     user = None
     if pos == "item":
@@ -49,6 +49,11 @@ def build(rng, pos, defined, order, where, nother):
         # a parameterised call whose argument key is written BEFORE the macro name (one mapping, another key order)
         target = {"name": ref, "args": ["reg"], "pattern": [{"push": ["reg"]}]}
         pattern = ["call", {"reg": "%rbx", ref: None}]
+    elif pos == "inside_operand":
+        # the reference stands INSIDE a longer name (as string macros are used: "%r@reg"), not at its start
+        pattern = [{"mov": ["%rbx", rng.choice(["%r", "0x", "x"]) + ref]}]
+    elif pos == "inside_deref_value":
+        pattern = [{"mov": [{"$deref": {"main_reg": "r" + ref, "constant_offset": "0x8"}}, "%rax"]}]
     elif pos == "twice_in_operand":
         # the same string macro written twice in ONE scalar (as in "\\[@any\\+@any\\*8\\]"): every occurrence is a reference
         pattern = [{"mov": ["%rbx", ref + rng.choice(["", "\\+", ","]) + ref]}]
